@@ -391,12 +391,14 @@ func run(prop, tier string, budget float64, evidence, known, replays string, wor
 	if bin := filepath.Join(filepath.Dir(self), "racepass.test"); fileExists(bin) && os.Getenv("VERIF_NO_RACEPASS") == "" {
 		test := "TestRace" + prop
 		if list, _ := exec.Command(bin, "-test.list", "^"+test+"$").Output(); strings.Contains(string(list), test) {
-			count := "1"
+			// the programs take 1-3 s per run and give up by themselves on most hangs; the test deadline is for the rest
+			// (a deadlock inside the library call itself) and is far above anything load can explain
+			count, limit := "1", "4m"
 			if tier == "thorough" {
-				count = "10"
+				count, limit = "10", "12m"
 			}
 			t0 := time.Now()
-			cmd := exec.Command(bin, "-test.run", "^"+test+"$", "-test.v", "-test.count", count, "-test.timeout", "20m")
+			cmd := exec.Command(bin, "-test.run", "^"+test+"$", "-test.v", "-test.count", count, "-test.timeout", limit)
 			cmd.Env = append(os.Environ(), "GORACE=halt_on_error=0")
 			out, _ := cmd.CombinedOutput()
 			txt := string(out)
